@@ -39,11 +39,24 @@ class TaskLog(_Quiet):
         self.contained.append((self.who(), str(msg), type(sys.exc_info()[1]).__name__))
 
 
+SIDE = ('bystander_refused', 'bystander_disconnect', 'reconnect', 'event')
+
+
 class AsyncRun:
-    """cfg = {'causes': [...], 'mode': 'handler'|'send'|'both', 'others': bool, 'conn': bool}"""
+    """cfg = {'causes': [...], 'mode': 'handler'|'send'|'both', 'others': bool, 'conn': bool,
+              'side': [...]}   side ⊆ SIDE: operations that are NOT terminating causes of the sid under
+    test but run concurrently with them (one asyncio task each, suspended only at its start):
+      bystander_refused     another transport's CONNECT to '/' that the connect handler refuses
+                            (always_connect=False: manager.connect + manager.disconnect of ANOTHER sid)
+      bystander_disconnect  disconnect() of another client of '/'
+      reconnect             a CONNECT for '/' repeated on the SAME transport
+      event                 an EVENT with an ack id from the same client on '/'
+    They are not tasks of the model (they touch no mark / membership of the sid under test:
+    `Sio.C04sched.bystander_frame`); what they must do is judged by the oracle."""
 
     def __init__(self, cfg):
         self.cfg = cfg
+        self.side = list(cfg.get('side') or [])
         self.slog = TaskLog(self.idx)
         self.w = w = ServerWorld('asyncio', logger=self.slog)
         self.elog = TaskLog(self.idx)
@@ -52,23 +65,32 @@ class AsyncRun:
         self.task_of = {}
         self.tasks = {}
         self.gates = {}            # task idx -> (kind, ns, future)
-        self.events = []           # (task idx, what, ns)      what ∈ check mark send handler cleanup snap chandler
+        self.events = []           # (task idx, what, ns, result, sid)   what ∈ check mark send handler cleanup snap chandler
         self.calls = []            # (task idx, ns, sid, reason)
+        self.connects = []         # (task idx, tid, ns, sid)        connect-handler invocations
+        self.ev_calls = []         # (task idx, sid, args)           'ev' handler invocations
+        self.expect = {}           # side task -> what the state at its release requires
         self.sched = []
-        self.connecting = False
+        self.conn_idx = None
         mode = cfg['mode']
         sio = w.sio
+        n_causes = len(cfg['causes'])
+        self.n_model = n_causes + (1 if cfg.get('conn') else 0)
 
         def mk(ns):
             async def on_connect(sid, environ):
-                if self.connecting and self.idx() is not None:
+                self.connects.append((self.idx(), environ.get('verif.tid'), ns, sid))
+                if self.conn_idx is not None and self.idx() == self.conn_idx:
                     await self.gate('chandler', ns)
-                    self.events.append((self.idx(), 'chandler', ns))
+                    self.events.append((self.idx(), 'chandler', ns, None, sid))
+                if environ.get('verif.tid') == 'T3':
+                    return False
 
             async def on_disconnect(sid, reason):
-                self.events.append((self.idx(), 'handler', ns))
-                self.calls.append((self.idx(), ns, sid, reason))
-                if mode in ('handler', 'both'):
+                i = self.idx()
+                self.events.append((i, 'handler', ns, None, sid))
+                self.calls.append((i, ns, sid, reason))
+                if i is not None and i < n_causes and mode in ('handler', 'both'):
                     await self.gate('handler', ns)
             return on_connect, on_disconnect
         for ns in NS_NAMES:
@@ -76,14 +98,20 @@ class AsyncRun:
             sio.on('connect', c, namespace=ns)
             sio.on('disconnect', d, namespace=ns)
 
+        async def on_ev(sid, *args):
+            self.ev_calls.append((self.idx(), sid, list(args)))
+            return 'ok'
+        sio.on('ev', on_ev, namespace='/')
+
         # transport: gate + log
         real_send_packet = w.eio.send_packet
 
         async def send_packet(eio_sid, pkt):
-            if self.idx() is not None:
+            i = self.idx()
+            if i is not None and i < self.n_model:
                 if mode in ('send', 'both'):
                     await self.gate('send', None)
-                self.events.append((self.idx(), 'send', None))
+                self.events.append((i, 'send', None, None, None))
             return await real_send_packet(eio_sid, pkt)
         w.eio.send_packet = send_packet
 
@@ -93,31 +121,40 @@ class AsyncRun:
         else:
             w.recv('T1', '0')
             w.recv('T1', '0/b,')
-        if cfg.get('others'):
+        if cfg.get('others') or 'bystander_disconnect' in self.side:
             w.open('T2')
             w.recv('T2', '0')
+        if 'bystander_refused' in self.side:
+            w.open('T3')
         self.mgr = mgr = sio.manager
         sock = w.socks['T1']
-        n_causes = len(cfg['causes'])
         if cfg.get('conn'):
             # a CONNECT for '/' whose application handler is still suspended when the causes arrive
-            self.connecting = True
-            ci = n_causes
+            self.conn_idx = ci = n_causes
             self._spawn(ci, lambda: sock.receive(eio_packet.Packet(eio_packet.MESSAGE, '0')), gated_start=False)
             self.quiesce()
             if ci not in self.gates or self.gates[ci][0] != 'chandler':
                 raise C.Infra('the connect handler did not suspend')
         self.ns_order = [NS_NAMES.index(n) for n in mgr.rooms.keys() if n in NS_NAMES]
         self.sids = [mgr.sid_from_eio_sid('T1', ns) for ns in NS_NAMES]
+        self.sid2 = mgr.sid_from_eio_sid('T2', '/') if 'T2' in w.socks else None
         w.sent_all()
         self._log_manager()
         fns = {
             'api': lambda: sio.disconnect(self.sids[0], namespace='/'),
             'client': lambda: sock.receive(eio_packet.Packet(eio_packet.MESSAGE, '1')),
             'lost': lambda: sock.close(wait=False, abort=True, reason=w.eio.reason.TRANSPORT_CLOSE),
+            'bystander_refused': lambda: w.socks['T3'].receive(eio_packet.Packet(eio_packet.MESSAGE, '0')),
+            'bystander_disconnect': lambda: sio.disconnect(self.sid2, namespace='/'),
+            'reconnect': lambda: sock.receive(eio_packet.Packet(eio_packet.MESSAGE, '0')),
+            'event': lambda: sock.receive(eio_packet.Packet(eio_packet.MESSAGE, '27["ev",1]')),
         }
         for i, c in enumerate(cfg['causes']):
             self._spawn(i, fns[c])
+        self.side_idx = {}
+        for j, sname in enumerate(self.side):
+            self.side_idx[self.n_model + j] = sname
+            self._spawn(self.n_model + j, fns[sname])
         self.quiesce()
 
     # ------------------------------------------------------------------ plumbing
@@ -152,23 +189,23 @@ class AsyncRun:
         def is_connected(sid, namespace):
             r = real_ic(sid, namespace)
             if self.idx() is not None:
-                ev.append((self.idx(), 'check', namespace, r))
+                ev.append((self.idx(), 'check', namespace, r, sid))
             return r
 
         def pre_disconnect(sid, namespace):
             if self.idx() is not None:
-                ev.append((self.idx(), 'mark', namespace))
+                ev.append((self.idx(), 'mark', namespace, None, sid))
             return real_pre(sid, namespace=namespace)
 
         async def disconnect(sid, namespace, **kw):
             if self.idx() is not None:
-                ev.append((self.idx(), 'cleanup', namespace))
+                ev.append((self.idx(), 'cleanup', namespace, None, sid))
             return await real_disc(sid, namespace, **kw)
 
         def get_namespaces():
             r = real_gn()
             if self.idx() is not None:
-                ev.append((self.idx(), 'snap', list(r)))
+                ev.append((self.idx(), 'snap', None, list(r), None))
             return r
         mgr.is_connected, mgr.pre_disconnect, mgr.disconnect, mgr.get_namespaces = \
             is_connected, pre_disconnect, disconnect, get_namespaces
@@ -184,11 +221,11 @@ class AsyncRun:
 
     # ------------------------------------------------------------------ schedule
     def enabled(self):
-        """choices: a task index (release its pending future) or a tuple of task indices whose pending
+        """choices: a task index (release its pending future) or a tuple of CAUSE indices whose pending
         futures are all `start` futures (released together, in that order)"""
         pend = sorted(self.gates)
         out = list(pend)
-        starts = [i for i in pend if self.gates[i][0] == 'start']
+        starts = [i for i in pend if self.gates[i][0] == 'start' and i < self.n_model]
         for k in range(2, len(starts) + 1):
             for perm in itertools.permutations(starts, k):
                 out.append(tuple(perm))
@@ -196,7 +233,15 @@ class AsyncRun:
 
     def step(self, choice):
         self.sched.append(list(choice) if isinstance(choice, tuple) else choice)
-        for i in (choice if isinstance(choice, (tuple, list)) else (choice,)):
+        ids = choice if isinstance(choice, (tuple, list)) else (choice,)
+        for i in ids:
+            sname = self.side_idx.get(i)
+            if sname in ('event', 'reconnect'):
+                # released alone, runs without suspension: what it must do follows from the state now
+                cur = self.mgr.sid_from_eio_sid('T1', '/')
+                self.expect[sname] = {'registered': cur is not None,
+                                      'connected': bool(cur is not None and self.mgr.is_connected(cur, '/')),
+                                      'sid': cur}
             kind, ns, f = self.gates.pop(i)
             f.set_result(None)
         self.quiesce()
@@ -209,28 +254,39 @@ class AsyncRun:
         todo = {}
         for i, k in enumerate(kinds):
             todo[i] = list(self.ns_order) if k == 'lost' else [0]
-        # model schedule from the log
+
+        def foreign(ns, sid):
+            # an access about a session other than the one under test (a re-accepted CONNECT's new sid)
+            return sid is not None and ns in NS_NAMES and sid != self.sids[NS_NAMES.index(ns)]
+        # model schedule from the log (model tasks only; side tasks are not tasks of the model)
         msched, mpcs = [], []
         snap, visited = {}, {i: [] for i in range(n)}
         gate_atomic = True
         open_check = None
         for e in self.events:
-            i, what = e[0], e[1]
+            i, what, ns, res, sid = e
+            if i is None or i >= n:
+                if open_check is not None:
+                    gate_atomic = False
+                    open_check = None
+                continue
             if open_check is not None:
                 # the access right after a successful check must be the same task's mark
                 if not (i == open_check and what == 'mark'):
                     gate_atomic = False
                 open_check = None
             if what == 'snap':
-                snap[i] = e[2]
+                snap[i] = res
+                continue
+            if what in ('mark', 'handler', 'cleanup') and foreign(ns, sid):
                 continue
             if what == 'mark':
                 continue
             if what == 'check':
-                if e[3] is True:
+                if res is True and not foreign(ns, sid):
                     open_check = i
                 if kinds[i] == 'lost':
-                    nsn = NS_NAMES.index(e[2]) if e[2] in NS_NAMES else None
+                    nsn = NS_NAMES.index(ns) if ns in NS_NAMES else None
                     for m in todo[i]:
                         if m == nsn:
                             break
@@ -248,11 +304,17 @@ class AsyncRun:
                         msched.append(i)
                         mpcs.append('check')
                         visited[i].append(m)
-        calls = {}
+        calls, new_calls, by_calls = {}, {}, []
         for (t, ns, sid, reason) in self.calls:
-            calls.setdefault(NS_NAMES.index(ns), []).append(REASON_KIND.get(reason, str(reason)))
+            k = REASON_KIND.get(reason, str(reason))
+            if sid == self.sids[NS_NAMES.index(ns)]:
+                calls.setdefault(NS_NAMES.index(ns), []).append(k)
+            elif sid == self.sid2:
+                by_calls.append(k)
+            else:
+                new_calls.setdefault(sid, []).append(k)
         raised, unfinished = [], []
-        for i in range(n):
+        for i in sorted(self.tasks):
             t = self.tasks[i]
             if not t.done():
                 unfinished.append(i)
@@ -269,23 +331,56 @@ class AsyncRun:
             residue[k] = (mem, pend)
             connected[k] = bool(mgr.is_connected(sid, ns))
         rooms = {k: self.w.run(w.sio.rooms, self.sids[k], NS_NAMES[k])[1] for k in range(len(NS_NAMES))}
-        disc = {}
+        disc, answers, acks = {}, [], []
         for f in decode_frames(w.sent('T1')):
-            if len(f) == 4 and f[0] == 1:
+            if len(f) != 4:
+                continue
+            if f[0] == 1:
                 disc[NS_NAMES.index(f[1])] = disc.get(NS_NAMES.index(f[1]), 0) + 1
+            elif f[0] in (0, 4) and f[1] == '/':
+                answers.append((f[0], f[3]))
+            elif f[0] == 3:
+                acks.append((f[1], f[2], f[3]))
         other_ok = True
-        if cfg.get('others'):
+        if 'T2' in w.socks:
             s2 = mgr.sid_from_eio_sid('T2', '/')
             other_ok = s2 is not None and bool(mgr.is_connected(s2, '/'))
+        side = {}
+        if 'bystander_disconnect' in self.side:
+            side['bystander_disconnect'] = {'calls': by_calls, 'still_connected': other_ok,
+                                            'pending': list(mgr.pending_disconnect.get('/', [])).count(self.sid2)}
+            other_ok = True
+        if 'bystander_refused' in self.side:
+            side['bystander_refused'] = {'frames': [(f[0], f[3]) for f in decode_frames(w.sent('T3')) if len(f) == 4],
+                                         'registered': mgr.sid_from_eio_sid('T3', '/') is not None}
+        new_state = {}
+        if 'reconnect' in self.side:
+            ex = self.expect.get('reconnect')
+            handlers = [c for c in self.connects if c[0] is not None and self.side_idx.get(c[0]) == 'reconnect']
+            new_sid = None
+            for (ty, data) in answers:
+                if ty == 0 and isinstance(data, dict):
+                    new_sid = data.get('sid')
+            side['reconnect'] = {'expect': ex, 'answers': answers, 'connect_handler_runs': len(handlers)}
+            if new_sid is not None:
+                new_state = {'sid': new_sid, 'calls': new_calls.get(new_sid, []),
+                             'connected': bool(mgr.is_connected(new_sid, '/')),
+                             'member': '/' in mgr.rooms and any(new_sid in room for room in mgr.rooms['/'].values()),
+                             'pending': list(mgr.pending_disconnect.get('/', [])).count(new_sid)}
+                new_calls.pop(new_sid, None)
+        if 'event' in self.side:
+            side['event'] = {'expect': self.expect.get('event'), 'handler_runs': [(c[1], c[2]) for c in self.ev_calls],
+                             'acks': acks}
         obs = {
             'causes': list(cfg['causes']), 'mode': cfg['mode'], 'others': bool(cfg.get('others')),
-            'conn': bool(cfg.get('conn')), 'sched': list(self.sched), 'kinds': kinds,
+            'conn': bool(cfg.get('conn')), 'side_tasks': list(self.side), 'sched': list(self.sched), 'kinds': kinds,
             'todo': [todo[i] for i in range(n)], 'msched': msched, 'mpcs': mpcs,
-            'calls': dict(sorted(calls.items())), 'raised': sorted(raised), 'swallowed': swallowed,
+            'calls': dict(sorted(calls.items())), 'raised': sorted(raised, key=str), 'swallowed': swallowed,
             'unfinished': unfinished, 'residue': residue, 'connected': connected,
             'rooms': {k: list(v or []) for k, v in rooms.items()},
             'disc_packets': disc, 'gate_atomic': gate_atomic, 'other_client_ok': other_ok,
-            'environ_left': 'T1' in w.sio.environ,
+            'environ_left': 'T1' in w.sio.environ, 'side': side, 'new_session': new_state,
+            'stray_calls': {str(k): v for k, v in new_calls.items()},
         }
         w.close()
         return obs
@@ -387,6 +482,50 @@ def oracle(obs):
         fails.append('environ of the lost transport still stored')
     if not obs['other_client_ok']:
         fails.append('the other client of the namespace is no longer connected')
+    if obs.get('stray_calls'):
+        fails.append('disconnect handler ran for a session id nobody was given: %r' % (obs['stray_calls'],))
+    side = obs.get('side') or {}
+    if 'bystander_disconnect' in side:
+        b = side['bystander_disconnect']
+        if b['calls'] != ['api'] or b['still_connected'] or b['pending']:
+            fails.append('disconnect() of the other client of the namespace: handler calls %r, still connected %r, pending %d'
+                         % (b['calls'], b['still_connected'], b['pending']))
+    if 'bystander_refused' in side:
+        b = side['bystander_refused']
+        if [f[0] for f in b['frames']] != [4] or b['registered']:
+            fails.append('refused CONNECT of another transport: frames %r, still registered %r' % (b['frames'], b['registered']))
+    if 'reconnect' in side:
+        r = side['reconnect']
+        ex = r['expect'] or {}
+        if ex.get('registered'):
+            # the transport's previous session of the namespace is still registered (connected, or being disconnected)
+            if [(t, d) for t, d in r['answers']] != [(4, 'Unable to connect')] or r['connect_handler_runs']:
+                fails.append('CONNECT repeated while the previous session is still registered: answered %r, connect handler '
+                             'ran %d times (required: CONNECT_ERROR "Unable to connect", no handler)'
+                             % (r['answers'], r['connect_handler_runs']))
+        else:
+            if [t for t, d in r['answers']] != [0] or r['connect_handler_runs'] != 1:
+                fails.append('CONNECT after the end of the previous session: answered %r, connect handler ran %d times'
+                             % (r['answers'], r['connect_handler_runs']))
+        ns_ = obs.get('new_session') or {}
+        if ns_:
+            if len(ns_['calls']) > 1:
+                fails.append('disconnect handler ran %d times for the re-accepted session' % len(ns_['calls']))
+            if ns_['connected'] and ns_['calls']:
+                fails.append('re-accepted session still connected after its disconnect handler ran')
+            if not ns_['connected'] and (len(ns_['calls']) != 1 or ns_['member'] or ns_['pending']):
+                fails.append('re-accepted session ended with handler calls %r, member %r, pending %d'
+                             % (ns_['calls'], ns_['member'], ns_['pending']))
+    if 'event' in side:
+        e = side['event']
+        ex = e['expect'] or {}
+        if ex.get('connected'):
+            if len(e['handler_runs']) != 1 or [a[1] for a in e['acks']] != [7]:
+                fails.append('EVENT from a connected session: handler ran %d times, ACKs %r' % (len(e['handler_runs']), e['acks']))
+        else:
+            if e['handler_runs'] or e['acks']:
+                fails.append('EVENT from a session that is not connected (disconnect in progress or over): handler ran %d '
+                             'times, ACKs %r (required: dropped)' % (len(e['handler_runs']), e['acks']))
     return fails
 
 
@@ -454,7 +593,7 @@ def run_async_schedules(ctx):
         diffs = correspondence(obs, m)
         rep = {'kernel': 'sched_async', 'cfg': cfg, 'sched': obs['sched'], 'model_sched': obs['msched'],
                'observed': {k: obs[k] for k in ('calls', 'raised', 'swallowed', 'residue', 'connected', 'rooms',
-                                                'disc_packets', 'gate_atomic', 'unfinished')},
+                                                'disc_packets', 'gate_atomic', 'unfinished', 'side', 'new_session')},
                'model': {k: m[k] for k in ('calls', 'raised', 'contained', 'residue', 'pcs')},
                'oracle': fails, 'correspondence': diffs}
         if fails:
@@ -478,7 +617,8 @@ def run_async_schedules(ctx):
                 obs_all = [random_schedule(cfg, ctx.rng) for _ in range(sample)]
             ans = C.batch('sched', [model_line(o) for o in obs_all])
             key = '+'.join(cfg['causes']) + '/' + cfg['mode'] + ('/shared-ns' if cfg['others'] else '') + \
-                ('/conn-suspended' if cfg.get('conn') else '') + ('/sampled' if sample else '')
+                ('/conn-suspended' if cfg.get('conn') else '') + \
+                ('/side:' + '+'.join(cfg['side']) if cfg.get('side') else '') + ('/sampled' if sample else '')
             stats['per_config'][key] = len(obs_all)
             ctx.count('sched_causes:' + '+'.join(cfg['causes']), len(obs_all))
             for o, m in zip(obs_all, ans):
@@ -488,7 +628,23 @@ def run_async_schedules(ctx):
     exhaustive = [{'causes': cs, 'mode': md, 'others': o, 'conn': False}
                   for cs in cause_sets(2) for md in modes for o in (False, True)]
     run_cfgs(exhaustive)
+    # side tasks: operations that are not terminating causes of the sid but run between / during them
+    def side_ok(cs, sd):
+        # frames of the transport itself cannot arrive once it is lost
+        return not ('lost' in cs and any(x in ('reconnect', 'event') for x in sd))
+    side_cfgs = [{'causes': cs, 'mode': 'both', 'others': False, 'conn': False, 'side': [sd]}
+                 for cs in cause_sets(2) for sd in SIDE if side_ok(cs, [sd])]
+    run_cfgs(side_cfgs)
+    stats['side_runs'] = sum(v for k, v in stats['per_config'].items() if '/side:' in k)
     three = [cs for cs in cause_sets(3) if len(cs) == 3]
+    if ctx.thorough:
+        run_cfgs([{'causes': cs, 'mode': md, 'others': False, 'conn': False, 'side': [sd]}
+                  for cs in cause_sets(2) for sd in SIDE for md in ('handler', 'send') if side_ok(cs, [sd])])
+        run_cfgs([{'causes': cs, 'mode': 'both', 'others': False, 'conn': False, 'side': [sd]}
+                  for cs in three for sd in SIDE if side_ok(cs, [sd])])
+        run_cfgs([{'causes': cs, 'mode': 'both', 'others': False, 'conn': False, 'side': list(sds)}
+                  for cs in cause_sets(2) for sds in itertools.combinations(SIDE, 2) if side_ok(cs, sds)])
+        stats['side_runs'] = sum(v for k, v in stats['per_config'].items() if '/side:' in k)
     if ctx.thorough:
         run_cfgs([{'causes': cs, 'mode': md, 'others': o, 'conn': False}
                   for cs in three for md in modes for o in (False, True)])
@@ -510,6 +666,10 @@ def run_async_schedules(ctx):
            if ctx.thorough else '; all release orders of the three distinct causes together; other triples and the '
            'suspended-connect-handler task sampled'))
     cov['sched_simultaneous_start_schedules'] = stats['bursts']
+    cov['sched_side_task_schedules'] = stats.get('side_runs', 0)
+    cov['sched_side_tasks'] = ('concurrent non-terminating operations, all release orders with <=2 causes (3 in thorough): refused '
+                               'CONNECT of another transport on the namespace, disconnect() of another client of the namespace, '
+                               'CONNECT repeated on the same transport, EVENT with ack id from the same client')
     cov['sched_distinct_nontrivial'] = len(stats['nontrivial'])
     cov['sched_rule'] = 'non-trivial = schedule of >=2 concurrent causes on one sid; every schedule runs on a fresh real AsyncServer and on Sched.run true'
     cov['sched_schedules_per_config'] = stats['per_config']
@@ -525,8 +685,9 @@ def run_async_schedules(ctx):
 def replay(ctx, rep):
     obs = replay_schedule(rep['cfg'], rep['sched'])
     m = C.batch('sched', [model_line(obs)])[0]
-    print('implementation:', json.dumps({k: obs[k] for k in ('causes', 'mode', 'sched', 'msched', 'calls', 'raised', 'swallowed',
-                                                               'residue', 'connected', 'gate_atomic')}, default=str))
+    print('implementation:', json.dumps({k: obs[k] for k in ('causes', 'mode', 'side_tasks', 'sched', 'msched', 'calls', 'raised',
+                                                               'swallowed', 'residue', 'connected', 'gate_atomic', 'side',
+                                                               'new_session')}, default=str))
     print('model:         ', json.dumps(m))
     fails = oracle(obs)
     print('oracle:        ', 'holds' if not fails else fails)
